@@ -159,17 +159,17 @@ impl Report {
     }
 
     /// Write the evidence file, print KNOWN-FINDING lines, return the process exit code.
-    pub fn finish(self) -> i32 {
+    pub fn finish(&self) -> i32 {
         let wall = self.start.elapsed().as_secs_f64();
-        let g = self.inner.into_inner().unwrap();
-        let mut cov = g.coverage;
+        let mut g = self.inner.lock().unwrap();
+        let mut cov = std::mem::take(&mut g.coverage);
         for k in ["states", "transitions", "evaluations", "distinct_nontrivial"] {
             cov.entry(k.to_string()).or_insert(json!(0));
         }
         cov.entry("traces_validated_against_impl".to_string())
             .or_insert(json!(0));
         cov.entry("rule".to_string()).or_insert(json!(""));
-        cov.insert("samples".into(), Value::Array(g.samples));
+        cov.insert("samples".into(), Value::Array(std::mem::take(&mut g.samples)));
         cov.insert(
             "known_findings_reobserved".into(),
             json!(g.known_seen.iter().map(|(k, v)| json!({"fingerprint": k, "count": v})).collect::<Vec<_>>()),
